@@ -14,7 +14,9 @@ reach, over the SCALE model of C11/C12 and the protobuf-go wire model of Lib/C33
   C33_steps_linear             unmarshal calls + glue iterations ≤ stepsA k * |bs| + stepsB k
   C33_steps_constants          the constants, e.g. (10,119) block announce, (139,324) GRANDPA message
   C33_steps_block              block response: SCALE work per block linear in the field sizes protobuf
-                               hands over (protobuf library trusted)
+                               hands over
+  C33_steps_linear_bresp       … and all blocks together ≤ 125 * |bs| + 1 (the parsed fields fit into
+                               the input: `goParse_size`); the protobuf library's own work is trusted
   C33_alloc_linear_partial     read-buffer bytes ≤ 67 * steps for the decoders without Go []byte/string
   C33_alloc_linear_counterexample   (known finding bytes-alloc) 107 bytes of block announcement
                                allocate 2^30 bytes
@@ -25,6 +27,7 @@ returns survives Marshal/Unmarshal), `goParse_encFields` (Lib/C33WireLemmas.lean
 import Gossamer.Model.C33
 import Gossamer.Lib.C33Reencode
 import Gossamer.Lib.C33Cost
+import Gossamer.Lib.C33WireSize
 namespace Gossamer.C33
 open Gossamer Gossamer.Scale Gossamer.Proto
 
@@ -329,7 +332,7 @@ theorem seqOk_kinds (k : Kind) (t : Ty) (hk : k.ty = some t) : t.wf = true ∧ s
 
 /-- **C33 (time)**: the number of `unmarshal` calls and glue-loop iterations of every decoder
     except the block response is at most `stepsA k * |input| + stepsB k`; the constants are those
-    of the message type (`C33_steps_constants`).  The block response is `C33_steps_block`. -/
+    of the message type (`C33_steps_constants`).  The block response is `C33_steps_linear_bresp`. -/
 theorem C33_steps_linear (k : Kind) (hk : k ≠ .bresp) (bs : Bytes) :
     (msgCost k bs).steps ≤ stepsA k * bs.length + stepsB k := by
   cases k <;> simp only [msgCost, stepsA, stepsB, Kind.ty]
@@ -371,6 +374,47 @@ theorem blocksCost_steps (ds : List Proto.BlockData) :
   induction ds with
   | nil => rfl
   | cons d ds ih => simp [blocksCost, Cost.add, ih]
+
+theorem blockCost_le (d : Proto.BlockData) : (blockCost d).steps ≤ 10 * bdSize d + 125 := by
+  have h := C33_steps_block d
+  have a1 : sA headerTy = 10 := by decide
+  have a2 : sA bodyTy = 1 := by decide
+  have b1 : sB headerTy = 117 := by decide
+  have b2 : sB bodyTy = 2 := by decide
+  rw [a1, a2, b1, b2] at h
+  have hs : (bodyStream d).length ≤ d.body.length + 5 + sumLen d.body := by
+    unfold bodyStream
+    rw [List.length_append, length_flatten]
+    have := length_encodeBigInt_le d.body.length
+    omega
+  unfold bdSize
+  omega
+
+theorem blocksCost_le (ds : List Proto.BlockData) : (blocksCost ds).steps ≤ 125 * blocksSize ds := by
+  induction ds with
+  | nil => simp [blocksCost, blocksSize]
+  | cons d ds ih =>
+    have := blockCost_le d
+    simp only [blocksCost, blocksSize, Cost.add]
+    omega
+
+/-- **C33 (time, block response, whole message)**: header and body decoding of ALL blocks of a
+    response together take at most `125 * |input| + 1` steps: the fields protobuf-go's parser hands
+    over fit into the input (`goParse_size`), nested block by block -/
+theorem C33_steps_linear_bresp (bs : Bytes) : (msgCost .bresp bs).steps ≤ 125 * bs.length + 1 := by
+  simp only [msgCost]
+  cases hp : goParse bs with
+  | none => simp only; omega
+  | some fs =>
+    simp only
+    cases hb : blocksOf fs with
+    | none => simp only; omega
+    | some ds =>
+      have h1 := blocksCost_le ds
+      have h2 := blocksOf_size fs ds hb
+      have h3 := goParse_size bs fs hp
+      simp only [Cost.add]
+      omega
 
 /-- the decoders whose messages contain no Go `[]byte` / `string` -/
 def bytesFree (k : Kind) : Bool :=
